@@ -7,7 +7,6 @@ From GV Require Import Base.Ints Gen.Math Gen.Kernel Model.Mirror
   Proofs.MirrorResumeOps Proofs.MirrorResumeOps2 Proofs.MirrorResumeOps3 Proofs.MirrorResumeOps4.
 Import ListNotations.
 Local Open Scope N_scope.
-Set Default Timeout 60.
 
 Lemma K_jump_until ih ivs fuel : forall s r, K ih ivs s ->
   K ih ivs (jump_until fuel s r) /\ pref ih ivs s (jump_until fuel s r).
